@@ -12,9 +12,31 @@ use elem::*;
 use hist::*;
 use std::io::{BufRead, Write};
 
+pub static PROGRESS: std::sync::atomic::AtomicU64 = std::sync::atomic::AtomicU64::new(0);
+
 fn main() {
     // panics are part of the observed behaviour; keep stderr quiet
     std::panic::set_hook(Box::new(|_| {}));
+    // watchdog: a single case that makes no progress for 20 s (an endless loop in the code under test) ends the process;
+    // the orchestrator records the in-flight case as crashed and resumes behind it
+    std::thread::spawn(|| {
+        let mut last = PROGRESS.load(std::sync::atomic::Ordering::SeqCst);
+        let mut stuck = 0;
+        loop {
+            std::thread::sleep(std::time::Duration::from_secs(1));
+            let now = PROGRESS.load(std::sync::atomic::Ordering::SeqCst);
+            if now == last {
+                stuck += 1;
+                if stuck >= 20 {
+                    eprintln!("watchdog: no progress for 20 s");
+                    std::process::exit(97);
+                }
+            } else {
+                stuck = 0;
+                last = now;
+            }
+        }
+    });
     let args: Vec<String> = std::env::args().collect();
     let path = args.get(1).expect("usage: mxh <cases> [from-case-index]");
     let from: usize = args.get(2).map_or(0, |s| s.parse().unwrap());
@@ -26,6 +48,7 @@ fn main() {
     let mut case_no = 0usize;
     for line in std::io::BufReader::new(file).lines() {
         let line = line.unwrap();
+        PROGRESS.fetch_add(1, std::sync::atomic::Ordering::SeqCst);
         let toks: Vec<&str> = line.split_whitespace().collect();
         match toks.first().copied() {
             Some("H") => {
@@ -41,6 +64,7 @@ fn main() {
             }),
             Some("K") => {
                 // K id debug fn args...
+                writeln!(w, "B {}", toks[1]).unwrap();
                 writeln!(w, "K {} {}", toks[1], kernel::run_k(&toks[3..])).unwrap();
             }
             Some("E") => {
